@@ -106,6 +106,11 @@ func (env *Env) heap(name string) Term {
 // is closed in every reachable state: a non-nil cell only holds references to memory that exists in that state.
 func (env *Env) readCell(elem types.Type, ptr Term) Term {
 	e := env.e
+	if env.st != nil && env.st.fv != nil && env.lazy == nil {
+		if v, ok := env.st.fv.immTerm[ptr]; ok {
+			return v // a cell written once (see immutableCellValue)
+		}
+	}
 	t := app("select", env.heap(e.cellHeap(elem)), ptr)
 	if env.lazy == nil && env.st != nil && env.st.fv != nil && len(boundVarsIn(ptr)) == 0 && !env.inOld {
 		fv := env.st.fv
@@ -1259,6 +1264,11 @@ func (env *Env) trHyp(x Expr) Term {
 	t := c.trBool(x)
 	if strings.Contains(t, "fu_h") {
 		env.e.decl("sort:Fuel", "(declare-datatypes ((Fuel 0)) (((FZ) (FS (fpred Fuel)))))")
+		// one flat quantifier: a pattern of an inner quantifier that mentions the fuel variable of an outer one is
+		// only matched after the outer one has been instantiated, for which there is no trigger
+		if strings.HasPrefix(t, "(forall (") {
+			return "(forall ((fu_h Fuel) " + strings.TrimPrefix(t, "(forall (")
+		}
 		return "(forall ((fu_h Fuel)) " + t + ")"
 	}
 	return t
